@@ -148,19 +148,30 @@ class MDOChain(ProcessDiscipline):
         # The graph traversal algorithm avoid to compute unnecessary Jacobians
         discipline.linearize(last_cached, execute=False, compute_all_jacobians=False)
 
+        discipline_output_names = discipline.io.output_grammar
         for output_name in chain_outputs:
             if output_name in self.jac:
                 # This output has already been taken from previous disciplines
                 # Derivatives must be composed using the chain rule
+                output_jacobian = self.jac[output_name]
 
-                # Make a copy of the keys because the dict is changed in the
-                # loop
+                # The composed derivatives are built in a new dictionary
+                # from the current ones, which are left unchanged in the loop:
+                # a variable can be both an input and an output of the discipline.
+                # The derivatives wrt the variables computed by the discipline
+                # are consumed by the composition,
+                # even when the discipline does not read the variable it overwrites.
+                new_output_jacobian = {
+                    input_name: jacobian
+                    for input_name, jacobian in output_jacobian.items()
+                    if input_name not in discipline_output_names
+                }
                 common_inputs = sorted(
-                    set(self.jac[output_name].keys()).intersection(discipline.jac)
+                    set(output_jacobian.keys()).intersection(discipline.jac)
                 )
                 for input_name in common_inputs:
                     # Store reference to the current Jacobian
-                    curr_jac = self.jac[output_name][input_name]
+                    curr_jac = output_jacobian[input_name]
                     for new_in, new_jac in discipline.jac[input_name].items():
                         # Chain rule the derivatives
                         # TODO: sum BEFORE dot
@@ -171,34 +182,38 @@ class MDOChain(ProcessDiscipline):
                         else:
                             loc_dot = curr_jac @ new_jac
 
-                        # when input_name==new_in, we are in the case of an
-                        # input being also an output
-                        # in this case we must only compose the derivatives
-                        if new_in in self.jac[output_name] and input_name != new_in:
+                        if new_in in new_output_jacobian:
                             # The output is already linearized wrt this
                             # input_name. We are in the case:
                             # d o     d o    d o     di_2
                             # ----  = ---- + ----- . -----
                             # d z     d z    d i_2    d z
                             if isinstance(loc_dot, JacobianOperator):
-                                self.jac[output_name][new_in] = (
-                                    loc_dot + self.jac[output_name][new_in]
+                                new_output_jacobian[new_in] = (
+                                    loc_dot + new_output_jacobian[new_in]
                                 )
                             else:
-                                self.jac[output_name][new_in] += loc_dot
+                                new_output_jacobian[new_in] += loc_dot
                         else:
                             # The output is not yet linearized wrt this
                             # input_name.  We are in the case:
                             #  d o      d o     di_1   d o     di_2
                             # -----  = ------ . ---- + ----  . ----
                             #  d x      d i_1   d x    d i_2    d x
-                            self.jac[output_name][new_in] = loc_dot
+                            new_output_jacobian[new_in] = loc_dot
 
-            elif output_name in discipline.jac:
+                self.jac[output_name] = new_output_jacobian
+
+            elif output_name in discipline_output_names:
                 # Output of the chain not yet filled in jac,
                 # Take the jacobian dict of the current discipline to
                 # Initialize. Make a copy !
-                self.jac[output_name] = MDOChain.copy_jacs(discipline.jac[output_name])
+                # This dict is empty when the output of the discipline
+                # does not depend on the differentiated inputs;
+                # the disciplines executed before do not define this output.
+                self.jac[output_name] = MDOChain.copy_jacs(
+                    discipline.jac.get(output_name, {})
+                )
 
     def _compute_diff_in_outs(
         self,
@@ -231,6 +246,9 @@ class MDOChain(ProcessDiscipline):
         # The graph traversal algorithm avoid to compute unnecessary Jacobians
         last_discipline.linearize(last_cached, execute=False)
         self.jac = self.copy_jacs(last_discipline.jac)
+        for output_name in last_discipline.io.output_grammar:
+            # The disciplines executed before do not define this output.
+            self.jac.setdefault(output_name, {})
 
         # reverse mode of remaining disciplines
         remaining_disciplines = self.disciplines[:-1]
